@@ -153,6 +153,10 @@ package verifier
 //@   ensures [verified-by-ParseJWT] isNilIface(result) ==> did(call crypto.ParseJWT #1) && arg(call crypto.ParseJWT #1, 0) == jwtDocumentToVerify
 //@           && isNilIface(ret(call crypto.ParseJWT #1).1)
 //@   ensures [kid-of-issuer] isNilIface(result) && keyID != "" ==> strings.Split(keyID, "#")[0] == issuer
+// stated here (over the callback's call) rather than in the callback, so that it still means something
+// when the callback no longer mentions the validation time at all
+//@   ensures [key-resolved-for-the-validation-time] did(call (*signatureVerifier).resolveSigningKey #1) ==> arg(call (*signatureVerifier).resolveSigningKey #1, 3) != nil
+//@           && arg(call (*signatureVerifier).resolveSigningKey #1, 3).ResolveTime == at && arg(call (*signatureVerifier).resolveSigningKey #1, 2) == issuer
 
 //@ func (*signatureVerifier).jwtSignature$1
 //@   prop C01 C17
